@@ -136,6 +136,7 @@ class Limbs:
         self.inputs = {}                # key -> atom id
         self.split_memo = {}
         self.alias_memo = {}
+        self.quot_prov = {}             # form of a quotient -> (F, ub F, M) it is the quotient of
         self.small = []                 # values known to lie in [0, ub]: candidates for remainders
         self.small_seen = set()
         self.lo_prov = {}
@@ -277,7 +278,19 @@ class Limbs:
 
     # -------------------------------------------------------------- quotient / remainder
     def split(self, v, M, why):
-        """(remainder, quotient) of v by M as Vals."""
+        """(remainder, quotient) of v by M as Vals; floor(floor(F / M1) / M) is floor(F / (M1 M)): one form per quantity."""
+        if v.ub >= M and M > 1 and v.p:
+            prov = self.quot_prov.get(pkey(v.p))
+            if prov is not None:
+                F, Fub, M1 = prov
+                _lo, qq = self.split(Val(F, Fub), M1 * M, why)
+                return Val(padd(v.p, pscale(qq.p, M), -1), min(M - 1, v.ub)), qq
+        lo, q = self._split(v, M, why)
+        if M > 1 and q.p and v.p and set(q.p) - {()} and pkey(q.p) != pkey(v.p):
+            self.quot_prov.setdefault(pkey(q.p), (v.p, v.ub, M))
+        return lo, q
+
+    def _split(self, v, M, why):
         if v.ub < M:
             return v, ZERO
         if M == 1:
@@ -329,7 +342,7 @@ class Limbs:
         a = self.split_memo.get(memo)
         ubq = (min(v.ub, rb) if rb is not None else v.ub) // M
         if a is None:
-            a = self.new_atom("q", ubq, F=v.p, M=M, desc=why)
+            a = self.new_atom("q", ubq, F=v.p, M=M, Fub=v.ub, desc=why)
             self.split_memo[memo] = a
         qp = patom(a)
         lo = Val(padd(v.p, pscale(qp, M), -1), min(M - 1, v.ub))
